@@ -7,7 +7,7 @@ import re
 
 from . import rustscan as rs
 
-DEFAULT_RULES = {'R1', 'R2', 'R5', 'R6', 'R7'}
+DEFAULT_RULES = {'R1', 'R2', 'R5', 'R6', 'R7', 'R14', 'R15'}
 
 
 class Refuse(Exception):
@@ -100,6 +100,22 @@ def rule_R7(text, fired):
     _count(fired, 'R7', n)
     text, n = re.subn(r'&\s*String::from_utf8_lossy\(\s*&\s*([A-Za-z_][A-Za-z0-9_\.]*)\s*\)', r'&lossy_string(&\1)', text)
     _count(fired, 'R7', n)
+    text, n = re.subn(r'String::from_utf8_lossy\(\s*&\s*\[([^\]]*)\]\s*\)\s*\.to_string\(\)', r'lossy_string_arr(&[\1])', text)
+    _count(fired, 'R7', n)
+    text, n = re.subn(r'&\s*String::from_utf8_lossy\(\s*([A-Za-z_][A-Za-z0-9_]*)\s*\)', r'&lossy_string_slice(\1)', text)
+    _count(fired, 'R7', n)
+    return text
+
+
+# ---- R5 (loop patterns): `for _ in` -> `for _iN in` so that an invariant can name the counter
+def rule_R5b(text, fired):
+    k = [0]
+
+    def rep(m):
+        k[0] += 1
+        return f'for _i{k[0]} in'
+    text, n = re.subn(r'\bfor\s+_\s+in\b', rep, text)
+    _count(fired, 'R5', n)
     return text
 
 
@@ -127,14 +143,32 @@ def rule_R13(text, fired):
     return text
 
 
+# ---- R14: numeric parse outlining -------------------------------------------------------------
+def rule_R14(text, fired):
+    text, n = re.subn(r'\b([A-Za-z_][A-Za-z0-9_]*)\s*\.parse::<f64>\(\)', r'parse_f64(&\1)', text)
+    _count(fired, 'R14', n)
+    return text
+
+
+# ---- R15: float constants --------------------------------------------------------------------
+def rule_R15(text, fired):
+    for const, fn in (('NEG_INFINITY', 'f64_neg_infinity()'), ('INFINITY', 'f64_infinity()'), ('NAN', 'f64_nan()')):
+        text, n = re.subn(r'\bf64::' + const + r'\b', fn, text)
+        _count(fired, 'R15', n)
+    return text
+
+
 RULES = {
+    'R15': rule_R15,
+    'R14': rule_R14,
+    'R5': rule_R5b,
     'R2': rule_R2,
     'R6': rule_R6,
     'R7': rule_R7,
     'R9': rule_R9,
     'R13': rule_R13,
 }
-ORDER = ['R2', 'R9', 'R6', 'R7', 'R13']
+ORDER = ['R2', 'R9', 'R6', 'R7', 'R13', 'R14', 'R15', 'R5']
 
 
 def apply_rules(text, active, fired, extra_subs=()):
